@@ -930,6 +930,51 @@ Definition consumed_sites : list (string * string * gkind) :=
    ("H5Reader.fetch_children", "iter:entity.items", GIter); ("H5Reader.fetch_values", "sub:'Data'#2", GTry);
    ("H5Reader.fetch_array_attribute", "sub:<label>", GTry); ("H5Reader.fetch_metadata", "sub:<label>", GTry);
    ("H5Reader.fetch_uuids", "sub:<etype>", GTry); ("Workspace.fetch_or_create_root", "none:root", GHandled);
-   ("Workspace.load_entity", "none:attributes", GHandled); ("Workspace.fetch_children", "none:recovered_object#2", GHandled)].
+   ("Workspace.load_entity", "none:attributes", GHandled); ("Workspace.fetch_children", "none:recovered_object#2", GHandled);
+   (* property groups are enumerated by link name and read one node at a time *)
+   ("H5Reader.fetch_property_groups", "iter:pg_handle", GIter); ("H5Reader.fetch_property_groups", "sub:<uid>#2", GTry)].
+
+(* What sits inside each `try ... except KeyError` that swallows (rows "swallow#n": every link lookup h5:, attribute read attr:
+   and plain dict subscript py: of the try body, sorted).  The model absorbs exactly the misses of these lookups; a lookup added
+   to such a scope (say a dict keyed by a stored attribute) would be swallowed with them and silently cut the loop short. *)
+Definition swallow_scopes : list (string * string * string) :=
+  [("H5Reader.fetch_property_groups", "swallow#1", "h5:'Objects'|h5:'PropertyGroups'|h5:<top>|h5:<uid>|h5:<uid>|py:<uid>");
+   ("H5Reader.fetch_value_map", "swallow#1", "h5:'Value map'");
+   ("H5Reader.fetch_values", "swallow#1", "h5:'Data'|h5:'Data'|h5:<top>|h5:<uid>|py:<uid>");
+   ("H5Reader.fetch_array_attribute", "swallow#1", "h5:<etype>|h5:<label>|h5:<top>|h5:<uid>");
+   ("H5Reader.fetch_metadata", "swallow#1", "h5:<etype>|h5:<label>|h5:<top>|h5:<uid>|py:<uid>");
+   ("H5Reader.fetch_uuids", "swallow#1", "h5:<etype>|h5:<top>")].
+Definition scope_okb (c : string * string * string) : bool :=
+  match c with (f, st, content) => String.eqb (row_miss f st reader_rows) content end.
 Definition site_okb (c : string * string * gkind) : bool :=
   match c with (f, st, g) => gkind_eqb (row_guard f st reader_rows) g end.
+
+(* property groups one by one: those of the intact content that the damaged read does not return under the same identifier
+   (entry gone, or its ID attribute gone: the reader draws a new identifier), and those returned with other attributes *)
+Definition pg_diff (s : fspec) (t0 t : tree) : list (N * key) * list (N * key) :=
+  fold_right (fun u acc =>
+      match find_rec (U u) (t_ents t0), find_rec (U u) (t_ents t) with
+      | Some a, Some b =>
+          fold_right (fun p acc' =>
+              match lookup (fst p) (r_pgs b) with
+              | None => ((u, fst p) :: fst acc', snd acc')
+              | Some at1 =>
+                  if negb (option_eqb aval_eqb (lookup KID at1) (lookup KID (snd p))) then ((u, fst p) :: fst acc', snd acc')
+                  else if amap_eqb at1 (snd p) then acc' else (fst acc', (u, fst p) :: snd acc')
+              end) acc (r_pgs a)
+      | _, _ => acc
+      end) ([], []) (all_uids s).
+Definition nkey_mem (x : N * key) (l : list (N * key)) : bool := existsb (fun y => N.eqb (fst x) (fst y) && key_eqb (snd x) (snd y)) l.
+Definition check_pgs (fuel : nat) (s : fspec) (t0 : tree) (x : item) (missing altered : list (N * key)) : bool :=
+  match load fuel G nested_scan (delete_item (layout s) x) with
+  | Ok t => let d := pg_diff s t0 t in
+            forallb (fun y => nkey_mem y missing) (fst d) && forallb (fun y => nkey_mem y (fst d)) missing
+            && forallb (fun y => nkey_mem y (snd d)) altered
+  | Err _ => true
+  end.
+
+(* the record of an object whose property groups are [P] and everything else intact *)
+Definition rec_with_pgs (s : fspec) (t : etree) (P : list (key * amap)) (parent : option uid) : erec :=
+  {| r_uid := U (et_uid t); r_kind := RObject; r_parent := parent; r_attrs := et_attrs t;
+     r_type := option_map tview_of (lookupN (et_ty t) (fs_types s (et_kind t)));
+     r_pgs := P; r_dsets := Some (et_dsets t) |}.
